@@ -11,7 +11,7 @@ pub const DEF: PropDef = PropDef {
     id: "C11",
     run,
     oracle,
-    rule: "cases = sequences of 1..8 (thorough: up to 12, and a tail of up to 300) self-delimiting packets mixing V5, V7, IPFIX and V9 (count = number of flowsets) built from a conformant plan, with template-before-data dependencies across packets, redefinitions, header-only packets (set-less IPFIX messages, V9 packets without flowsets, V5/V7 without records; one packet in sixteen, and dedicated chains where six in seven are header-only), byte-identical repeats of up to two packets (retransmissions: adjacent, and again further down the sequence), and optionally a last packet carrying data for an unknown template (an error ends a buffer, so it is only comparable in last position). Oracle: for every partition of the sequence into consecutive calls (all 2^(n-1) for n <= 8, 64 sampled by a deterministic stride beyond), the concatenated results (compared through their complete Debug rendering, which includes padding, plus to_be_bytes) and the final cache state equal those of the one-packet-per-call run on a fresh parser. non-trivial = n >= 3, >= 2 versions present, and some packet decodes data under a template defined by an earlier packet of the sequence; distinct by digest.",
+    rule: "cases = sequences of 1..8 (thorough: up to 12, and a tail of up to 300) self-delimiting packets mixing V5, V7, IPFIX and V9 (count = number of flowsets) built from a conformant plan, with template-before-data dependencies across packets, redefinitions, sequences whose concatenation exceeds 64 KiB, header-only packets (set-less IPFIX messages, V9 packets without flowsets, V5/V7 without records; one packet in sixteen, and dedicated chains where six in seven are header-only), byte-identical repeats of up to two packets (retransmissions: adjacent, and again further down the sequence), and optionally a last packet carrying data for an unknown template (an error ends a buffer, so it is only comparable in last position). Oracle: for every partition of the sequence into consecutive calls (all 2^(n-1) for n <= 8, 64 sampled by a deterministic stride beyond), the concatenated results (compared through their complete Debug rendering, which includes padding, plus to_be_bytes) and the final cache state equal those of the one-packet-per-call run on a fresh parser. non-trivial = n >= 3, >= 2 versions present, and some packet decodes data under a template defined by an earlier packet of the sequence; distinct by digest.",
     assumptions: &["Debug rendering of result elements is complete (derived on every result type) and deterministic (results hold no hash maps)"],
 };
 
@@ -121,6 +121,9 @@ pub fn oracle(case: &Case) -> Outcome {
     if pkts.windows(2).any(|w| w[0] == w[1] && w[0].len() >= 2 && matches!(be16(&w[0], 0), 9 | 10)) {
         o.label("adjacent-identical-v9/ipfix-packets");
     }
+    if pkts.iter().map(|p| p.len()).sum::<usize>() > 65535 {
+        o.label("sequence-longer-than-64KiB");
+    }
     o.label(format!("n={}", n.min(13)));
     o.label(format!("partitions={}", parts.len()));
     if dependent {
@@ -200,6 +203,8 @@ pub fn run(ctx: &Ctx) {
     ctx.search("sampled-partitions-n<=12", ctx.n(6_000, 600_000), &|| seq_case(8, 11, 2), &oracle);
     ctx.search("header-only-packet-chains-n<=8", ctx.n(4_000, 400_000), &|| seq_case_with(4, 8, 2, true), &oracle);
     ctx.search("header-only-packet-chains-n<=40", ctx.n(600, 60_000), &|| seq_case_with(9, 40, 2, true), &oracle);
+    // call buffers far beyond one datagram (replayed capture files, TCP transports)
+    ctx.search("buffers-beyond-64KiB", ctx.n(160, 8_000), &|| seq_case(8, 14, 120), &oracle);
     if ctx.thorough() {
         ctx.search("long-sequences", 20_000, &|| seq_case(50, 300, 1), &oracle);
     } else {
